@@ -4,7 +4,7 @@
 import glob, json, os, re, shutil, sys
 pid, v = sys.argv[1], sys.argv[2]
 # round-2 seeds are called A2/B2 and live in /tmp/seed2-Cxx/SEED/{A,B}
-if v.endswith('2') or v.endswith('3'):
+if v[-1] in '234':
     src = '/tmp/seed%s-%s/SEED/%s' % (v[-1], pid, v[:-1])
 else:
     src = '/tmp/seed-%s/SEED/%s' % (pid, v)
@@ -17,7 +17,7 @@ readme = open(os.path.join(src, 'README.md')).read()
 conf = ''
 for lg in glob.glob('/var/tmp/confirm*.log'):
     for line in open(lg):
-        if line.startswith('RESULT %s/%s ' % (pid, v)) or (v[-1] in '23' and line.startswith('RESULT%s %s/%s ' % (v[-1], pid, v[:-1]))):
+        if line.startswith('RESULT %s/%s ' % (pid, v)) or (v[-1] in '234' and line.startswith('RESULT%s %s/%s ' % (v[-1], pid, v[:-1]))):
             conf = line.strip()
 det = ''
 logs = sorted(glob.glob('/var/tmp/seedtest[1-9]*.log')) + ['/var/tmp/seedtest0.log']
